@@ -563,7 +563,7 @@ class Evaluator:
             for v, s in self.ev(n["e"], st, fp):
                 if isinstance(v, tuple) and v and v[0] == "ref":
                     out.append((v[1], s))
-                elif isinstance(v, tuple) and v and v[0] in ("struct", "obj", "array", "upd", "updf", "clo", "fnitem", "lit"):
+                elif isinstance(v, tuple) and v and (v[0] in ("struct", "obj", "array", "upd", "updf", "clo", "fnitem", "lit", "subslice", "objat") or _w(v) != 64):
                     # shared references are transparent: the "pointer" is the value itself
                     key = ("tmp", self.fresh())
                     out.append((("pv", key), s.set(key, v)))
@@ -871,7 +871,10 @@ class Evaluator:
             res = UNIT
         else:
             res = ("obj", "%s#%d" % (_short_path(path), self.fresh()), n["ty"])
-        return [(res, s.effect(("call", path, tuple(vals), res)))]
+        s2 = s.effect(("call", path, tuple(vals), res))
+        if n["ty"] == "!":
+            s2 = s2.fork(exit=("panic", path))
+        return [(res, s2)]
 
     def inline_fn(self, path, vals, n, s):
         if s.depth >= self.max_depth:
@@ -1226,3 +1229,29 @@ def m_any(ev, vals, n, s, path, gens):
 @suffix_model(r"HashSet<T, S, A>::iter$|HashMap<K, V, S, A>::iter$|slice::<impl \[T\]>::iter$|IntoIterator>::into_iter$")
 def m_iter(ev, vals, n, s, path, gens):
     return [(ev.deref_val(vals[0], s), s)]
+
+
+@suffix_model(r"byteorder::ByteOrder(>)?::read_([iu])(16|32|64)$")
+def m_bo_read(ev, vals, n, s, path, gens):
+    """LittleEndian::read_xN(&slice[start..]): the N/8 bytes at slice[start..] as lanes"""
+    if not gens or "LittleEndian" not in gens[0]:
+        return None
+    m = re.search(r"read_([iu])(16|32|64)$", path)
+    w = int(m.group(2))
+    sl = ev.deref_val(vals[0], s)
+    if not (isinstance(sl, tuple) and sl and sl[0] == "subslice"):
+        return None
+    base, start = sl[1], sl[2]
+    acc = T.K(w, 0)
+    for i in range(w // 8):
+        byte = ("sel", base, T.op("add", 64, start, T.K(64, i)), 8)
+        acc = T.op("or", w, acc, T.shift("shl", w, T.zext(w, byte), T.K(8, 8 * i)))
+    return [(acc, s)]
+
+
+@suffix_model(r"slice::index::<impl core::ops::Index(Mut)?<I> for \[T\]>::index(_mut)?$")
+def m_slice_index(ev, vals, n, s, path, gens):
+    base, rg = ev.deref_val(vals[0], s), vals[1]
+    if isinstance(rg, tuple) and rg and rg[0] == "struct" and rg[1].endswith("RangeFrom"):
+        return [(("subslice", base, sfield(rg, "start")), s)]
+    return None
